@@ -11,7 +11,7 @@
    Only property theorems live here. *)
 From RichModel Require Import Prelude Conc SpecConc.
 From RichGen Require Import ConsoleLock.
-From RichProofs Require Import ConcP ConcP2 ConcP3 ConcP4 ConcP5.
+From RichProofs Require Import ConcP ConcP2 ConcP3 ConcP4 ConcP5 ConcP6 ConcP7 ConcP8.
 Open Scope list_scope.
 
 (* (0) the tie: lock discipline computed on the table extracted from /repo's ASTs *)
@@ -78,17 +78,28 @@ Proof. exact record_order_quiescent. Qed.
 Print Assumptions C11_record_order_eq_file_order.
 
 (* (4) deadlock_free: the lock order Live._lock < Console._lock < Console._record_buffer_lock is
-   respected by every reachable program suffix (static check `good`, derived from the compiled
-   programs; on the /repo side: order_ok inside well_locked).  Hence in every reachable state
-   where some thread is unfinished, some thread can step -- unless its next instruction is the
-   IndexError of popping an empty hook list, which is an error, not a deadlock. *)
+   respected by every reachable program suffix (static check `good`; on the /repo side: order_ok
+   inside well_locked).  Hence in every reachable state where some thread is unfinished, some
+   thread can step.  No exception: the IndexError of pop_render_hook on an empty hook list is
+   unreachable (C11_pop_render_hook_safe) -- Live.stop pops only after reading _started = True
+   under the live lock, so two threads stopping the same Live cannot both pop. *)
 Theorem C11_deadlock_free : forall rep live sh0 r0 progs sched t0,
   let st := run rep sched (init_state live sh0 r0 progs) in
-  prog (th st t0) <> [] ->
-  exists t i r, prog (th st t) = i :: r
-                /\ (step rep st t <> None \/ (i = IPopHook /\ hooks (sh st) = 0%nat)).
-Proof. exact deadlock_free. Qed.
+  prog (th st t0) <> [] -> exists t, step rep st t <> None.
+Proof. exact deadlock_free_full. Qed.
 Print Assumptions C11_deadlock_free.
+
+Theorem C11_pop_render_hook_safe : forall rep live sh0 r0 progs sched t r,
+  let st := run rep sched (init_state live sh0 r0 progs) in
+  prog (th st t) = IPopHook :: r -> (1 <= hooks (sh st))%nat.
+Proof. intros. apply pop_render_hook_safe with (t := t) (r := r); [apply run_inv2, init_inv2 | assumption]. Qed.
+Print Assumptions C11_pop_render_hook_safe.
+
+Example C11_two_stops_nonvacuous :   (* two threads stop the same started Live, a third starts it again *)
+  let st := run false (flat_map (fun _ => [0; 1; 2; 2; 1; 0]%nat) (seq 0 300))
+                (init_state true None (0, 1%nat) (progs_of [[Stop]; [Stop]; [Start; Stop]])) in
+  finished st 3 = true /\ hooks (sh st) = 0%nat /\ started (sh st) = false.
+Proof. vm_compute. repeat (split; [reflexivity|]). reflexivity. Qed.
 
 (* (5) live_screen_under_interleaving -- REFUTED for rich as it is (DESIGN D17, KNOWN FINDING):
    a 2-thread schedule after which a row of an old frame remains above the printed line.
@@ -103,17 +114,42 @@ Proof.
 Qed.
 Print Assumptions C11_live_screen_under_interleaving_refuted.
 
-(* full statement for the repaired variant (hold Live._lock from position_cursor() until the
-   write has happened) -- NOT proved in general:
-     forall progs sched, (prints not nested in with-blocks, no start/stop) ->
-       finished st -> screen_ok_b (file (sh (run true sched init))) = true.
-   Proved: for each program of ConcP3.small_live_programs, ALL schedules (exhaustive exploration of
-   the interleaving tree by vm_compute, lifted to arbitrary schedule lists by explore_sound). *)
-Theorem C11_live_screen_repaired_partial : forall progs sched,
+(* ... and PROVED IN GENERAL for the repaired variant (hold Live._lock from position_cursor() until
+   the write has happened): every schedule, any number of threads, every program over
+   print / update(+refresh) / refresh / refresh-thread tick on a started display with frames of at
+   least one row.  Whenever the live lock is free (in particular at the end), the terminal shows the
+   printed lines in file order followed by the rows of the frame written last.
+   Proof: invariant "live lock free -> the file is a consistent write sequence and _shape is the
+   height of its last frame" (ConcP7, induction on the schedule, one simulation lemma per
+   instruction of the lock owner) + sequential terminal lemma (ConcP8). *)
+Theorem C11_live_screen_repaired : forall r0 progs sched,
+  (1 <= snd r0)%nat -> (forall t, live_ops (progs t)) ->
+  let st := run true sched (init_state true None r0 progs) in
+  lkL (sh st) = None -> screen_ok_b (file (sh st)) = true.
+Proof. exact live_screen_repaired. Qed.
+Print Assumptions C11_live_screen_repaired.
+
+Theorem C11_repaired_erase_never_stale : forall r0 progs sched,
+  (1 <= snd r0)%nat -> (forall t, live_ops (progs t)) ->
+  let st := run true sched (init_state true None r0 progs) in
+  lkL (sh st) = None -> cons_file (file (sh st)) (shape (sh st)).
+Proof. exact repaired_file_consistent. Qed.
+Print Assumptions C11_repaired_erase_never_stale.
+
+Example C11_live_screen_repaired_nonvacuous :
+  let progs := progs_of [[Update 1 2%nat true; Print 7]; [Update 2 3%nat true]; [Tick; Print 1]] in
+  let st := run true (flat_map (fun _ => [0; 1; 2; 2; 1; 0]%nat) (seq 0 60)) (init_state true None (0, 1%nat) progs) in
+  finished st 3 = true /\ lkL (sh st) = None /\ length (file (sh st)) = 5%nat
+  /\ forallb live_op (concat [[Update 1 2%nat true; Print 7]; [Update 2 3%nat true]; [Tick; Print 1]]) = true.
+Proof. vm_compute. repeat (split; [reflexivity|]). reflexivity. Qed.
+
+(* all schedules of five small programs, by exhaustive exploration (kept as an independent check
+   of the general theorem; it also shows that all threads finish) *)
+Theorem C11_live_screen_repaired_small : forall progs sched,
   In progs small_live_programs ->
   Forall (fun t => (t < length progs)%nat) sched ->
   let st := run true sched (init_state true None (0, 1%nat) (progs_of progs)) in
   runnable true st (length progs) = [] ->
   finished st (length progs) = true /\ screen_ok_b (file (sh st)) = true.
 Proof. exact live_screen_repaired_small. Qed.
-Print Assumptions C11_live_screen_repaired_partial.
+Print Assumptions C11_live_screen_repaired_small.
